@@ -152,6 +152,18 @@ CHECKS = {
                      "histories that call an older live definition are matched against known finding F13.",
                 note="Kill during invalidation is C05's; stale .pyc files are an interpreter matter (no bytecode written); "
                      "one lambda per module (documented collisions outside the domain)."),
+    "C10": dict(engine="detsched+simproc", cat="exploration", ref="DESIGN.md section 3 (C10)",
+                technique="deterministic simulation with fault injection: the real loky executor stack (manager and feeder "
+                          "threads, queues, the real _process_worker) on a simulated OS (processes as thread groups, pipes, "
+                          "locks, sentinels, wait) under the seeded scheduler; workers are killed at seeded instants of the "
+                          "task life-cycle",
+                text="Each call must return exactly its results or raise TerminatedWorkerError/BrokenProcessPool promptly on "
+                     "the virtual clock (deadlock / hang verdicts of the engine otherwise), never wrong or partial results, "
+                     "at most one failing call per kill, and following calls succeed with fresh workers; kill instants are "
+                     "labelled from the victim's real Python stack (idle, receiving a call, running, pickling / sending "
+                     "the result incl. between chunks of a large message).",
+                note="The simulated OS is a model (checked against a real-process experiment for the F7 hang); workers "
+                     "share one interpreter; kills fall between simulation yield points (pipe writes cut at 16 KiB chunks)."),
 }
 NOT_APPLICABLE = {
     "C03": "pure function of (object, compressor, protocol, target): no schedule, clock, fault or history for a simulator to own; input enumeration is not this technique (its damaged-file cousin is C14, its stateful reader C13)",
@@ -193,6 +205,8 @@ def main():
         "engines": [
             {"name": "detsched", "path": "sim/detsched.py", "serves_properties": ["C01", "C04", "C09", "C10", "C15", "C16", "C17"],
              "kind_free_text": "deterministic baton-passing scheduler over real parked threads, settrace pre-emption, virtual clock, recorded decision list"},
+            {"name": "simproc", "path": "sim/simproc.py", "serves_properties": ["C10"],
+             "kind_free_text": "simulated OS (SimProcess thread groups running the real _process_worker, SimPipe, sim_wait, SimContext) under the real loky ProcessPoolExecutor"},
             {"name": "simtracker", "path": "props/c20.py", "serves_properties": ["C20"],
              "kind_free_text": "shadowed open() of resource_tracker: readline() is the simulator step over a seeded merge of client scripts"},
             {"name": "simfs", "path": "sim/simfs.py", "serves_properties": ["C05", "C11", "C18", "C02", "C06", "C12"],
